@@ -46,7 +46,7 @@ def gen(shard, tier):
     else:
         seq = shard['seq']
         n = len(seq)
-        slots = ['n', 'c'] + list(range(n)) + ['sn', 'sc', 'sK', 'sG']   # s* = the same written as a global rule
+        slots = ['n', 'c'] + list(range(n)) + ['sn', 'sc', 'sK', 'sG', 'l']   # s* = written as a global rule; l = labile
         for k in (1, 2):
             for ss in itertools.combinations(slots, k):
                 texts = MOD_TEXTS if k == 1 else MOD_TEXTS[:3]
@@ -62,6 +62,8 @@ def build(case):
             P['nterm'] = [[text, 1]]
         elif slot == 'c':
             P['cterm'] = [[text, 1]]
+        elif slot == 'l':
+            P['labile'] = [[text, 1]]       # lost on fragmentation: no fragment ion carries it
         elif slot in ('sn', 'sc', 'sK', 'sG'):
             tgt = {'sn': 'N-Term', 'sc': 'C-Term', 'sK': 'K', 'sG': 'G'}[slot]
             P.setdefault('static', []).append({'mods': [[text, 1]], 'targets': [tgt]})
@@ -133,6 +135,17 @@ def check(case, ctx):
                              deviation=f.mass - exp, via=via)
                 elif not lib.close(f.mz, exp / z, tol):
                     ctx.fail('ion-mz', exp / z, f.mz, ion=t, span=[a, b], charge=z, monoisotopic=mono, text=s, via=via)
+            # fixed chemical offsets between the series, also in average mode at 1e-5 (differences of two library values
+            # of the same span and charge against the small composition CO, NH3, H2 from the frozen table)
+            for (t, a, b, z), f in byk.items():
+                anchor = 'b' if t in ('a', 'c') else 'y' if t in ('x', 'z') else None
+                g = byk.get((anchor, a, b, z)) if anchor else None
+                if g is None:
+                    continue
+                want = refdata.comp_mass(refmass.ION_OFFSET[t], mono) - refdata.comp_mass(refmass.ION_OFFSET[anchor], mono)
+                if not lib.close(f.mass - g.mass, want, 1e-5):
+                    ctx.fail('series-offset', want, f.mass - g.mass, ion=t, anchor=anchor, span=[a, b], charge=z,
+                             monoisotopic=mono, text=s, via=via)
             # complementary pairs: b_i + y_(n-i) = M + 2 protons
             for i in range(1, n):
                 fb = byk.get(('b', 0, i, 1))
